@@ -62,6 +62,26 @@ def storeStep (db : Db) : List String → Db × String
           let db' := crash (run [(k, v), (k2, v)] db (sk.take j))
           (db', s!"{sk.length} {showTables db'.committed}")
     | _, _, _, _, _ => (db, "bad-op")
+  | ["faultrun", op, j, k, v, k2] =>
+    -- the write statement at position j of the operation fails; whether the operation then rolls back is what the probe of the current
+    -- source says (Gen.faultOutcome)
+    match op.toNat?, j.toNat?, k.toNat?, v.toNat?, k2.toNat? with
+    | some op, some j, some k, some v, some k2 =>
+      match skeletonOf op false with
+      | none => (db, "bad-op")
+      | some sk0 =>
+        let t := tableOf sk0
+        let ex := (lookup (view db) t k).isSome
+        match skeletonOf op ex with
+        | none => (db, "bad-op")
+        | some sk =>
+          if j + 1 ≥ sk.length then (db, "not-reached") else
+          let rb := match Yow.Gen.faultOutcome.find? (fun f => f.1 == op && f.2.1 == j) with
+            | some f => f.2.2
+            | none => true
+          let db' := runFault rb [(k, v), (k2, v)] db sk j
+          (db', if rb then "rolled-back" else "pending")
+    | _, _, _, _, _ => (db, "bad-op")
   | ["reopen"] => (crash db, "ok")
   | ["dump"] => (db, showTables (view db))
   | ["get", t, k] =>
